@@ -15,6 +15,7 @@ import (
 // own alphabet and its own assertions.
 
 type histState struct {
+	prev    []string // dumps after the previous operation
 	m       *MWorld
 	optBit  map[string]uint64 // learned: which raw option bit belongs to which option
 	lastErr map[int]string
@@ -280,6 +281,16 @@ func (st *histState) stepModel(x *Exec, op Op, out Outcome, k histKeys) string {
 			}
 		}
 		if why == "" {
+			// nothing that is neither receiver nor argument may change
+			now := w.snapshot()
+			if st.prev != nil {
+				for i := range now {
+					if !touches(op, i) && now[i] != st.prev[i] {
+						return fmt.Sprintf("collateral change: %s (neither receiver nor argument) changed (%s):\n before: %s\n after:  %s", w.objs[i].name, diffFields(st.prev[i], now[i]), st.prev[i], now[i])
+					}
+				}
+			}
+			st.prev = now
 			st.m = a.W
 			return ""
 		}
@@ -393,6 +404,9 @@ func mismatchSite(op Op, why string) string {
 	}
 	if strings.HasPrefix(why, "returned ") {
 		return op.M + ":result"
+	}
+	if strings.HasPrefix(why, "collateral change") {
+		return op.M + ":collateral"
 	}
 	name := why
 	if i := strings.IndexAny(name, "(= "); i > 0 {
